@@ -1110,6 +1110,8 @@ class Analyzer:
             if target is not None and target.kind != "unknown":
                 return result()
             obj = Types.resolve(f, self.module)
+            if obj is not None and hasattr(obj, "__wrapped__") and not inspect.isclass(obj):
+                obj = inspect.unwrap(obj)  # lru_cache / functools.wraps wrappers: the wrapped repo function
             first = args[0] if args else None
             if name == "sorted":
                 r = AV("list", elem=first.elem if first is not None else None)
@@ -1383,6 +1385,29 @@ class Analyzer:
             ret = AV("unknown")
         pure = is_pure(fn)
         text = ast.unparse(e)[:80]
+        # a set handed to a callee whose parameter does not declare a set: the callee iterates it in hash order
+        try:
+            cnode = node if is_repo(fn) else None
+        except Exception:
+            cnode = None
+        if cnode is not None:
+            cparams = list(cnode.args.posonlyargs + cnode.args.args)
+            if recv is not None and cparams and cparams[0].arg in ("self", "cls"):
+                cparams = cparams[1:]
+            pairs = []
+            for i, a in enumerate(args):
+                pairs.append((a, cparams[i] if i < len(cparams) else cnode.args.vararg))
+            for k, a in kwargs.items():
+                pm = next((p for p in cparams + list(cnode.args.kwonlyargs) if p.arg == k), cnode.args.kwarg)
+                pairs.append((a, pm))
+            for a, pm in pairs:
+                if a is None or a.kind != "set" or pm is None:
+                    continue
+                declared = TYPES.ann_to_av(pm.annotation, module) if pm.annotation is not None else AV("unknown")
+                is_star = pm is cnode.args.vararg or pm is cnode.args.kwarg
+                if declared.kind != "set" or is_star:
+                    self.report(e, "set-argument", f"a set is passed to `{fn.__qualname__}` as `{pm.arg}` (declared {ast.unparse(pm.annotation) if pm.annotation is not None else 'untyped'}): "
+                                                   f"the callee iterates it in hash order (in {text})")
         tainted_arg = any_taint
         if recv is not None and recv.tainted() and tainted_arg is None:
             tainted_arg = recv
